@@ -29,6 +29,14 @@ class NotAbstractable(Unsupported):
     pass
 
 
+class ConstCell(Cell):
+    """storage of an immutable static (precomputed table): shared between forked paths"""
+    __slots__ = ()
+
+    def __deepcopy__(self, memo):
+        return self
+
+
 class PathEnd(Exception):
     """the current symbolic path is finished (cut at a loop head) or infeasible"""
 
@@ -383,7 +391,12 @@ class AlgoInterp(Interp):
         if op in ("Sub", "SubUnchecked"):
             return SymV(x - y, bits, sg)
         if op in ("Mul", "MulUnchecked"):
-            return SymV(x * y, bits, sg)
+            iv = None
+            if ia is not None and ib is not None and (isinstance(a, IntV) or isinstance(b, IntV)):
+                iv = z3.simplify(ia * ib)
+                lo, hi = (-(1 << (bits - 1)), (1 << (bits - 1)) - 1) if sg else (0, (1 << bits) - 1)
+                self.side.append(("no wrap-around in Mul", self.under_path(z3.And(iv >= lo, iv <= hi))))
+            return SymV(x * y, bits, sg, iv)
         if op == "BitAnd":
             return SymV(x & y, bits, sg)
         if op == "BitOr":
@@ -510,6 +523,35 @@ class AlgoInterp(Interp):
                 c = (idx == j) if idx is not None else (iv.e == z3.BitVecVal(j, iv.bits))
                 res = Lin.ite(c, lins[j], res)
             return Cell(self.wrap(res, kind)), ()
+        if isinstance(arr.fields[0], Coord) and idx is not None:
+            # flat table of coordinates: entry e occupies k consecutive words; a read at
+            # k*e + c yields coordinate c of the (ite-merged) entry.  The merged element is
+            # cached per base expression so that the k reads re-assemble into one point.
+            kind = arr.fields[0].kind
+            k = len(self.arity(kind.split("::")[-1]))
+            if n % k:
+                raise NotAbstractable("flat table of %d words for %d coordinates" % (n, k))
+            cidx = None
+            for c in range(k):
+                st, _, _ = decide(self.assumptions + list(self.path), (idx - c) % k == 0, 10000)
+                if st == "unsat":
+                    cidx = c
+                    break
+            if cidx is None:
+                raise NotAbstractable("cannot tell which coordinate a data-dependent index selects")
+            base = z3.simplify(idx - cidx)
+            cache = self.__dict__.setdefault("_flat_cache", {})
+            key = (id(arr), str(base), len(self.path))
+            hit = cache.get(key)
+            if hit is None or hit[0] is not arr:
+                lins = [self.coords_to_lin(arr.fields[e * k:(e + 1) * k], kind.split("::")[-1])
+                        for e in range(n // k)]
+                res = lins[-1]
+                for e in range(n // k - 2, -1, -1):
+                    res = Lin.ite(base == k * e, lins[e], res)
+                cache[key] = (arr, res)
+                hit = cache[key]
+            return Cell(Coord(hit[1], cidx, kind)), ()
         raise NotAbstractable("symbolic index into an array of %r" % (arr.fields[0],))
 
     # ------------------------------------------------------------------
@@ -539,6 +581,7 @@ class AlgoInterp(Interp):
             if any(isinstance(a.get() if isinstance(a, Ref) else a, Coord) for a in args):
                 raise NotAbstractable("field operation %s on a coordinate of an abstract point (in %s)"
                                       % (cal.method, fr.body.name.rsplit("::", 1)[-1]))
+        self._cur_term = t
         return Interp.call(self, fr, t)
 
     def builtin(self, fr, cal, args):
@@ -693,6 +736,12 @@ class AlgoInterp(Interp):
                 if len(b.params) == nargs:
                     cands.append(b)
         if len(cands) != 1:
+            # not emitted (always inlined at MIR level elsewhere): use the type of the destination local
+            t = getattr(self, "_cur_term", None)
+            if t is not None and t.dest is not None and not t.dest.proj:
+                ty = fr.body.local_types.get(t.dest.local)
+                if ty:
+                    return ty
             raise MirError("cannot find the declaration of %s (%d candidates)" % (cal.text, len(cands)))
         return cands[0].ret
 
@@ -741,7 +790,7 @@ class AlgoInterp(Interp):
             if extra_neg is not None:
                 res = Lin.ite(extra_neg, -res, res)
         elif extra_neg is not None:
-            raise NotAbstractable("lookup with an unexpected third argument")
+            res = Lin.ite(extra_neg, -res, res)      # conditional negation flag
         out = self.wrap(res, rty)
         if has_flag:
             return Agg("tuple", [out, flag])
@@ -772,6 +821,10 @@ class AlgoInterp(Interp):
         else:
             raise NotAbstractable("recoder argument %r" % (src,))
         self.digits[label] = (ds, w)
+        try:
+            self.streams.append((ds, self.stream_generator([src])))
+        except NotAbstractable:
+            pass
         return Agg("array", ds)
 
     def recode_naf(self, fr, cal, args):
@@ -897,7 +950,12 @@ class AlgoInterp(Interp):
         if m:
             aid = int(m.group(1))
             if aid in self.mir.allocs:
-                return Ref(Cell(self.table(self.mir.allocs[aid][0], m.group(2))))
+                tc = self.__dict__.setdefault("_tables", {})
+                if aid not in tc:
+                    tc[aid] = ConstCell(self.table(self.mir.allocs[aid][0], m.group(2)))
+                else:
+                    self.count("table:" + self.mir.allocs[aid][0].split("::")[-1])
+                return Ref(tc[aid])
             raise NotAbstractable("unknown allocation " + text)
         if text == "RangeFull":
             return UNIT
